@@ -925,7 +925,7 @@ fn batch_supervised(
     let n = jobs().max(1) as u64;
     let total = hi - lo;
     // more slices than workers so that a slow slice does not dominate
-    let slices = (n * 4).min(total.max(1));
+    let slices = (n * 16).min(total.max(1));
     let next = AtomicU64::new(0);
     let results: Mutex<Vec<(Agg, BTreeMap<String, Hit>, Vec<String>)>> = Mutex::new(vec![]);
     std::thread::scope(|s| {
